@@ -6,7 +6,7 @@ From KV.Fec Require Import Codec AutoTune Fec FecSpec AutoTuneProofs.
 Import ListNotations.
 Local Open Scope Z_scope.
 
-Ltac Zify.zify_post_hook ::= Z.div_mod_to_equations.
+Ltac Zify.zify_post_hook ::= idtac. (* mods are handled by hand here; the hook makes lia slow *)
 
 Lemma mod_mult_shift a q k : 0 < a -> 0 <= k < a -> (a * q + k) mod a = k.
 Proof. intros. replace (a * q + k) with (a * q + 0 + k) by lia. apply mod_shift; lia. Qed.
@@ -16,8 +16,10 @@ Lemma next_multiple a s0 : 0 < a -> 0 <= s0 ->
   exists q, s0 < a * q <= s0 + a /\ 0 < q.
 Proof.
   intros Ha Hs. exists (s0 / a + 1).
-  pose proof (Z.div_mod s0 a ltac:(lia)). pose proof (Z.mod_pos_bound s0 a Ha).
-  assert (0 <= s0 / a) by (apply Z.div_pos; lia). nia.
+  pose proof (Z.div_mod s0 a ltac:(lia)) as Hdm. pose proof (Z.mod_pos_bound s0 a Ha) as Hr.
+  assert (Hq : 0 <= s0 / a) by (apply Z.div_pos; lia).
+  remember (s0 / a) as q0. remember (s0 mod a) as r0.
+  replace (a * (q0 + 1)) with (a * q0 + a) by ring. clear Heqq0 Heqr0. split; [split|]; lia.
 Qed.
 
 Lemma mismatch_le a d b dr s0 :
@@ -26,10 +28,10 @@ Lemma mismatch_le a d b dr s0 :
 Proof.
   intros Hd Hdr Hab Hne Hs0.
   destruct (next_multiple a s0 ltac:(lia) Hs0) as (q & Hx & Hq).
-  set (x := a * q) in *.
-  assert (Hxa : forall k, 0 <= k < a -> (x + k) mod a = k) by (intros; apply mod_mult_shift; lia).
+  remember (a * q) as x eqn:Ex.
+  assert (Hxa : forall k, 0 <= k < a -> (x + k) mod a = k) by (intros; rewrite Ex; apply mod_mult_shift; lia).
   assert (Hx1 : (x - 1) mod a = a - 1).
-  { replace (x - 1) with (a * (q - 1) + (a - 1)) by (unfold x; lia). apply mod_mult_shift; lia. }
+  { replace (x - 1) with (a * (q - 1) + (a - 1)) by (rewrite Ex; ring). apply mod_mult_shift; lia. }
   (* g at x-1 and x *)
   destruct ((x - 1) mod b <? dr) eqn:G1.
   { exists (x - 1). split; [lia|]. rewrite Hx1, G1. destruct (a - 1 <? d) eqn:E; [apply Z.ltb_lt in E; lia|discriminate]. }
@@ -39,17 +41,18 @@ Proof.
   apply Z.ltb_ge in G1. apply Z.ltb_lt in G0.
   (* hence b divides x *)
   pose proof (Z.div_mod (x - 1) b ltac:(lia)) as Hdm. pose proof (Z.mod_pos_bound (x - 1) b ltac:(lia)) as Hr.
-  set (qb := (x - 1) / b) in *. set (r := (x - 1) mod b) in *.
+  remember ((x - 1) / b) as qb eqn:Eqb. remember ((x - 1) mod b) as r eqn:Er. clear Eqb.
   assert (Hrb : r = b - 1).
   { destruct (Z.eq_dec r (b - 1)); [assumption|exfalso].
     replace x with (b * qb + (r + 1)) in G0 by lia. rewrite mod_mult_shift in G0 by lia. lia. }
+  clear Er.
   assert (Hxb : forall k, 0 <= k < b -> (x + k) mod b = k).
-  { intros k Hk. replace (x + k) with (b * (qb + 1) + k) by lia. apply mod_mult_shift; lia. }
+  { intros k Hk. replace (x + k) with (b * (qb + 1) + k) by (rewrite Z.mul_add_distr_l; lia). apply mod_mult_shift; lia. }
   destruct (Z.eq_dec d dr) as [Hdd|Hdd].
   - (* same data count: then a < b, and the patterns differ at x + a *)
     assert (Hlt : a < b) by (destruct Hne; lia).
     exists (x + a). split; [lia|].
-    replace (x + a) with (a * (q + 1) + 0) at 1 by (unfold x; lia). rewrite mod_mult_shift by lia.
+    replace (x + a) with (a * (q + 1) + 0) at 1 by (rewrite Ex; ring). rewrite mod_mult_shift by lia.
     rewrite Hxb by lia.
     destruct (0 <? d) eqn:E1; [|apply Z.ltb_ge in E1; lia].
     destruct (a <? dr) eqn:E2; [apply Z.ltb_lt in E2; lia|discriminate].
